@@ -110,7 +110,8 @@ def driven_finish(sc, steps, quit_code=None, rng=None, teardown=True, slots=None
     code = quit_code if quit_code is not None else (rng.randrange(0, 200) if rng else 0)
     for k, ops in enumerate(steps):
         sc.cb(DRV, "evt", k, ops)
-    sc.cb(DRV, "evt", len(steps), list(last_ops) + [("ctx_quit", code)])
+    twice = [("ctx_quit", rng.randrange(0, 256))] if (rng and rng.random() < 0.3) else []    # the last request wins
+    sc.cb(DRV, "evt", len(steps), list(last_ops) + twice + [("ctx_quit", code)])
     sc.cb(DRV, "evt", "*", [("ctx_quit", code)])
     sc.main.append(("LOOP",))
     sc.meta["quit_code"] = code
@@ -129,7 +130,7 @@ def driven_finish(sc, steps, quit_code=None, rng=None, teardown=True, slots=None
         sc.main.append(("RELEASE_ALL",))
         for s in order2:
             sc.main.append(("obs_drop", s))
-        for u in range(0, 16):
+        for u in range(0, sc.meta.get("max_ufd", 16)):
             sc.main.append(("fd_close", u))
         sc.main.append(("quiesce",))
 
@@ -746,5 +747,97 @@ def gen_sysnotif(seed, mode="loop"):
         runs.append(steps)
         between.append(sum((p.op("idle") for _ in range(r.randrange(0, 3))), []))
     driven_multi(sc, runs, between, rng=r)
+    finalize_main(sc)
+    return sc
+
+
+def gen_sources(seed, mode="loop"):
+    """C03/C20: descriptor, timer, signal and task sources; 1..100 descriptors ready in one poll batch; errno poisoned by
+    every callback; runs normally end with enough empty steps for everything produced to be consumed (conservation)"""
+    r = random.Random(seed * 23 + 11)
+    sc = Sc(mode, "sources seed=%d" % seed)
+    driven_skeleton(sc)
+    shape = r.choice(["few", "few", "few", "wide", "quit_early"])
+    nm = r.randrange(1, 5)
+    tasker = nm + 1 if r.random() < 0.4 else None
+    for i in range(1, nm + 1):
+        sc.mod(i, "e%d" % i, r.choice([0, 0, MOD_UD_AUTOFREE]), r.choice([0, 4, 6, 7]))
+        sc.cb(i, "eval", "*", [], ret=1)
+        sc.cb(i, "start", "*", [], ret=1, errno=r.choice([-1, 4, 5]))
+        sc.cb(i, "stop", "*", [], errno=r.choice([-1, 2]))
+        sc.main += [("reg", i), ("start", i)]
+    if tasker:
+        sc.mod(tasker, "tasker", 0, 0)
+        sc.main += [("reg", tasker), ("start", tasker)]
+    conserve = {}
+    pend = {}
+    u = 1
+    other = []          # (ufd, owner) not under conservation (one-shot / auto-close / dup / registered late)
+    nfd = r.randrange(70, 101) if shape == "wide" else r.randrange(1, 7)
+    for _ in range(nfd):
+        owner = r.randrange(1, nm + 1) if shape != "wide" else 1
+        sc.main.append(("fd_open", u, 0, 0))
+        x = r.random()
+        if x < 0.75 or shape == "wide":
+            fl = r.choice([0, 0, SRC_HIGH, SRC_AUTOFREE])
+            conserve[u] = owner
+        else:
+            fl = r.choice([SRC_ONESHOT, SRC_FD_AUTOCLOSE, SRC_DUP, SRC_ONESHOT | SRC_DUP, SRC_ONESHOT | SRC_FD_AUTOCLOSE])
+            other.append((u, owner))
+        sc.main.append(("fd_reg", owner, u, fl, sc.ud()))
+        pend[u] = 0
+        u += 1
+    sc.meta["max_ufd"] = u + 2
+    for i in range(1, nm + 1):
+        # scripted errno poisoning in every handler invocation
+        for n in range(40):
+            ops = []
+            if r.random() < 0.1:
+                ops.append(("errno", r.randrange(1, 134)))
+            sc.cb(i, "evt", n, ops, errno=r.choice([0, 4, 11, 5, 2, 9, 32, r.randrange(1, 134)]))
+        sc.cb(i, "evt", "*", [], errno=r.choice([4, 11, 5, 9]))
+    sigs = [10, 12, 34]
+    sig_owner = {}
+    steps = []
+    nsteps = r.randrange(3, 16)
+    tid = 0
+    for k in range(nsteps):
+        ops = []
+        if shape == "wide" and k == 1:
+            for uu in conserve:
+                ops.append(("fd_write", uu))
+                pend[uu] += 1
+        for _ in range(r.randrange(0, 5)):
+            x = r.random()
+            if x < 0.5 and (conserve or other):
+                uu = r.choice(list(conserve) + [o[0] for o in other])
+                if pend[uu] < 3:
+                    ops.append(("fd_write", uu))
+                    pend[uu] += 1
+            elif x < 0.6:
+                sg = r.choice(sigs)
+                if sg not in sig_owner:
+                    sig_owner[sg] = r.randrange(1, nm + 1)
+                    ops.append(("sgn_reg", sig_owner[sg], sg, r.choice([0, SRC_ONESHOT]), sc.ud()))
+                ops.append(("raise", sg))
+            elif x < 0.7:
+                ops.append(("tmr_reg", r.randrange(1, nm + 1), r.choice([1000000, 2000000, 1500000]), r.choice([0, SRC_ONESHOT, SRC_ONESHOT]), sc.ud(), 0))
+            elif x < 0.78 and tasker:
+                tid += 1
+                ops.append(("task_reg", tasker, tid, 0, 0, r.choice([0, 100, 500]), r.randrange(100)))
+            elif x < 0.84:
+                m = r.randrange(1, nm + 1)
+                ops.append((r.choice(["pause", "resume", "stop", "start"]), m))
+            elif x < 0.9:
+                ops.append(("tell", r.randrange(1, nm + 1), r.randrange(1, nm + 1), sc.pay(), 0))
+            else:
+                ops.append(("sleep", r.choice([200, 1000, 2500])))
+        steps.append(ops)
+    if shape != "quit_early":
+        steps += [[("sleep", 300)] if i % 2 else [] for i in range(8)]
+        sc.meta["conserve"] = conserve
+    else:
+        sc.meta["conserve"] = {}
+    driven_finish(sc, steps, rng=r)
     finalize_main(sc)
     return sc
